@@ -469,6 +469,23 @@ def case_tap(shard, rng, key, cls):
         if ref_back != nonempty:
             shard.violation('write_pzx: a reader written from the PZX text finds DATA blocks %r.. in the file, %r.. were written' % ([len(b) for b in ref_back][:8], [len(b) for b in nonempty][:8]),
                             dict(rp, blocks=[harness.b64(b) for b in nonempty]))
+        # every bit of every block is on the tape, and (tail pulses aside) it is the signal of the TAP file
+        pfb = tm.parse_pzx(wraw)
+        short = [(fb.num, fb.tb.nbits()) for fb in pfb if fb.id == 'DATA' and fb.tb.nbits() != 8 * len(fb.data)]
+        sk_short = [(b.number, b.timings.used_bits) for b in t.blocks if b.block_id == 'DATA' and b.timings.used_bits != 8]
+        if short or sk_short:
+            shard.violation('write_pzx: DATA blocks do not carry 8 bits per byte: %r (reference reader), %r (parse_pzx used_bits)' % (short[:5], sk_short[:5]),
+                            dict(rp, blocks=[harness.b64(b) for b in nonempty]))
+        wtbs = tm.timing_blocks(pfb)
+        for tb in wtbs:
+            tb.tail = 0
+            tb.level = None     # (the explicit levels only make sense with the tails in place)
+        shard.inc('monitor:write_pzx_vs_tap_signal')
+        e_w = tm.model_edges(wtbs).edges
+        e_t = tm.model_edges(tm.timing_blocks(tm.parse_tap(tm.tap_bytes(nonempty)))).edges
+        if e_w != e_t:
+            shard.violation('write_pzx: with the tail pulses taken out, the file does not describe the signal of the same blocks as TAP: ' + show_diff(e_w, e_t, ('pzx', 'tap')),
+                            dict(rp, blocks=[harness.b64(b) for b in nonempty]))
         o3 = pick_opts(rng, route, 3 * len(nonempty), select=rng.random() < 0.3)
         tape_case(shard, key, 'pzx', wraw, o3, route)
         # tapinfo -d: the listing shows the bytes
